@@ -225,3 +225,17 @@ V("c09-param-no-reduce", "break", ["C09"], (PA, "    p.__reduce_ex__ = _paramete
 V("c09-reduce-default-rebuild", "break", ["C09"], (PA, "        _rebuild_parameter_with_state,\n        (self.data", "        torch._utils._rebuild_parameter_with_state,\n        (self.data"))
 V("c09-transform-no-deepcopy", "break", ["C09", "C17"], ("unit_scaling/transforms/utils.py", "    module = copy.deepcopy(module)\n", "    module = copy.copy(module)\n"))
 V("c09-keep-setattr", "keep", ["C09"], (PA, "    result.mup_type = self.mup_type\n    result.mup_scaling_depth = self.mup_scaling_depth\n", "    for _k in (\"mup_type\", \"mup_scaling_depth\"):\n        setattr(result, _k, getattr(self, _k))\n"))
+
+# ---------------------------------------------------------------- C11
+V("c11-unscaled-lr-decay", "break", ["C11"], (OP, "                param_weight_decay /= float(param_lr)  # type: ignore", "                param_weight_decay /= float(group[\"lr\"])  # type: ignore"), expect="independent-decay")
+V("c11-no-clone", "break", ["C11"], (OP, "                if isinstance(param_lr, Tensor):\n                    param_lr = param_lr.clone()\n", ""), expect="tensor-lr")
+V("c11-no-copy", "break", ["C11"], (OP, "        group = dict(params=[entry]) if isinstance(entry, Tensor) else entry.copy()", "        group = dict(params=[entry]) if isinstance(entry, Tensor) else entry"), expect="caller-groups")
+V("c11-append-tagged-only", "break", ["C11"], (OP, "            param_weight_decay = group[\"weight_decay\"]\n            if independent_weight_decay:\n                # Note: only independent of peak LR, not of schedule\n                param_weight_decay /= float(param_lr)  # type: ignore\n\n            result.append(", "            else:\n                continue\n            param_weight_decay = group[\"weight_decay\"]\n            if independent_weight_decay:\n                # Note: only independent of peak LR, not of schedule\n                param_weight_decay /= float(param_lr)  # type: ignore\n\n            result.append("))
+V("c11-extra-key-dropped", "break", ["C11"], (OP, "                        if k not in (\"params\", \"lr\", \"weight_decay\")", "                        if k not in (\"params\", \"lr\", \"weight_decay\", \"eps\")"), expect="extra-keys")
+V("c11-decay-always", "break", ["C11"], (OP, "            if independent_weight_decay:\n", "            if True:\n"))
+V("c11-group-decay-ignored", "break", ["C11"], (OP, "            param_weight_decay = group[\"weight_decay\"]\n", "            param_weight_decay = weight_decay\n"))
+V("c11-reversed", "break", ["C11"], (OP, "        for param in group[\"params\"]:\n", "        for param in reversed(group[\"params\"]):\n"))
+V("c11-insert-front", "break", ["C11"], (OP, "            result.append(\n                dict(", "            result.insert(\n                0, dict("))
+V("c11-decay-mult", "break", ["C11"], (OP, "                param_weight_decay /= float(param_lr)  # type: ignore", "                param_weight_decay *= float(param_lr)  # type: ignore"))
+V("c11-keep-comprehension", "keep", ["C11", "C10"], (OP, "                    **{\n                        k: v\n                        for k, v in group.items()\n                        if k not in (\"params\", \"lr\", \"weight_decay\")\n                    },", "                    **{k: group[k] for k in group if k not in {\"params\", \"lr\", \"weight_decay\"}},"))
+V("c11-keep-outofplace", "keep", ["C11", "C10"], (OP, "                param_weight_decay /= float(param_lr)  # type: ignore", "                param_weight_decay = param_weight_decay / float(param_lr)"))
